@@ -376,6 +376,49 @@ def random_parse(out: hlib.RecWriter, rng: random.Random, n_docs: int) -> None:
                            'sig': {'kind': kind, 'action': 'export', 'src': 'random'}, 'doc': text})
 
 
+def random_collapse(out: hlib.RecWriter, rng: random.Random, n_hist: int) -> None:
+    """IDs of everything in a map after collapsing instances of a shared template into it."""
+    from srctools.instancing import Instance, InstanceFile, collapse_one, FixupStyle
+    from srctools.math import Matrix
+    for _ in range(n_hist):
+        tmpl = VMF()
+        for _ in range(rng.randint(0, 3)):
+            tmpl.add_brush(tmpl.make_prism(Vec(0, 0, 0), Vec(8, 8, 8)).solid)
+        for _ in range(rng.randint(0, 3)):
+            e = tmpl.create_ent('info_target', origin='1 2 3', targetname='t')
+            if rng.random() < 0.4:
+                e.solids.append(tmpl.make_prism(Vec(0, 0, 0), Vec(4, 4, 4)).solid)
+        vis = tmpl.create_visgroup('grp')
+        tmpl.vis_tree[0].child_groups.append(VisGroup(tmpl, 'kid'))
+        ifile = InstanceFile(tmpl)
+        target = VMF()
+        for _ in range(rng.randint(0, 3)):
+            target.add_brush(target.make_prism(Vec(0, 0, 0), Vec(8, 8, 8)).solid)
+        for _ in range(rng.randint(0, 3)):
+            target.create_ent('info_null')
+        keepvis = rng.random() < 0.5
+        n_inst = rng.randint(1, 4)
+        for j in range(n_inst):
+            inst = Instance(f'inst{j}', 'x.vmf', Vec(rng.randint(-64, 64), 0, 0), Matrix.from_yaw(90 * rng.randint(0, 3)),
+                            rng.choice(list(FixupStyle)))
+            collapse_one(target, inst, ifile, visgroup=keepvis)
+            if rng.random() < 0.3 and target.entities:
+                target.entities[rng.randrange(len(target.entities))].remove()
+        ents = [target.spawn] + list(target.entities)
+        solids = list(target.brushes) + [s for e in target.entities for s in e.solids]
+        sides = [f for s in solids for f in s.sides]
+
+        def all_vis(groups):
+            for g in groups:
+                yield g
+                yield from all_vis(g.child_groups)
+        for kind, objs in (('ent', ents), ('solid', solids), ('side', sides), ('vis', list(all_vis(target.vis_tree)))):
+            if objs:
+                out.write({'k': 'parse', 'kind': kind, 'ids': [o.id for o in objs], 'n': len(objs),
+                           'sig': {'kind': kind, 'action': 'collapse', 'src': 'random'},
+                           'hist': ['collapse', n_inst, keepvis]})
+
+
 def random_nodes(out: hlib.RecWriter, rng: random.Random, n_hist: int) -> None:
     """Node IDs (the 'nodeid' key of entities in the map)."""
     for _ in range(n_hist):
@@ -454,6 +497,7 @@ def main() -> None:
         random_life(out, rng, 2000 if thorough else 150, 40)
         random_parse(out, rng, 1500 if thorough else 150)
         random_nodes(out, rng, 1500 if thorough else 150)
+        random_collapse(out, rng, 600 if thorough else 80)
         random_fixups(out, rng, 3000 if thorough else 300)
     elif mode == 'replay':
         # re-execute the history stored in a replay file against the current tree
